@@ -288,6 +288,13 @@ class Resolver:
                         return ast.copy_location(ast.Call(func=ast.Name(id="__proj__", ctx=ast.Load()), args=[inner, ast.Constant(value=idx)], keywords=[]), node)
                     outer.stopped.append((node.id, "component of a call result"))
                     return node
+                # mutated in place between its definition and this use (`diff[idx] -= ...`, `x.sort()`, out=x)?
+                # then the defining expression is no longer the value
+                if d.node is not None and at is not None:
+                    for m_ in _inplace_mutations(flow).get(node.id, ()):
+                        if m_ != d.node.id and m_ != at.id and (flow.cfg.reaches(d.node.id, m_)) and flow.cfg.reaches(m_, at.id):
+                            outer.stopped.append((node.id, "mutated in place after its definition"))
+                            return node
                 # loop-carried? the definition node can be reached from `at` and depends on itself
                 if _self_dependent(flow, d):
                     outer.stopped.append((node.id, "loop-carried"))
@@ -312,6 +319,39 @@ class Resolver:
                 return node
 
         return T().visit(copy.deepcopy(expr))
+
+
+_MUTATING = {"sort", "fill", "put", "itemset", "resize", "partition", "append", "extend", "insert", "remove", "pop", "clear", "update", "add", "discard", "reverse", "setdefault"}
+
+
+def _inplace_mutations(flow: "FunctionFlow") -> Dict[str, List[int]]:
+    """name -> ids of CFG nodes that change the object bound to the name without re-binding it."""
+    cache = getattr(flow, "_inplace", None)
+    if cache is not None:
+        return cache
+    out: Dict[str, List[int]] = {}
+    for n in flow.cfg.stmt_nodes():
+        if n.ast is None or n.kind != "stmt":
+            continue
+        s = n.stmt
+        tg = s.targets if isinstance(s, ast.Assign) else ([s.target] if isinstance(s, ast.AugAssign) else [])
+        for t in tg:
+            for tt in (t.elts if isinstance(t, (ast.Tuple, ast.List)) else [t]):
+                b = tt
+                if isinstance(b, ast.Subscript):
+                    while isinstance(b, ast.Subscript):
+                        b = b.value
+                    if isinstance(b, ast.Name):
+                        out.setdefault(b.id, []).append(n.id)
+        for c in ast.walk(s) if not isinstance(s, (ast.FunctionDef, ast.ClassDef)) else []:
+            if isinstance(c, ast.Call):
+                if isinstance(c.func, ast.Attribute) and isinstance(c.func.value, ast.Name) and c.func.attr in _MUTATING:
+                    out.setdefault(c.func.value.id, []).append(n.id)
+                for k in c.keywords:
+                    if k.arg == "out" and isinstance(k.value, ast.Name):
+                        out.setdefault(k.value.id, []).append(n.id)
+    flow._inplace = out
+    return out
 
 
 def _self_dependent(flow: FunctionFlow, d: Def) -> bool:
